@@ -24,6 +24,24 @@ import MalVerif.Py.GenModel.Assoc
 import MalVerif.Py.AbsModel
 import MalVerif.Py.GenLang.Attacks
 import MalVerif.Py.AbsLang
+import MalVerif.Py.GenWrapper.Wrapper
+import MalVerif.Py.GenLegacy.Updater
+import MalVerif.Py.GenLegacy.Securicad
+import MalVerif.Py.GenLang.Assocs
+import MalVerif.Py.AbsLangGraph
+import MalVerif.Py.GenNeo4j.IngestModel
+import MalVerif.Py.GenNeo4j.IngestGraph
+import MalVerif.Py.GenNeo4j.GetModel
+import MalVerif.Py.GenMSerial.ToDict
+import MalVerif.Py.GenMSerial.FromDict
+import MalVerif.Py.GenLang.Assets
+import MalVerif.Py.GenLang.Assocs
+import MalVerif.Py.GenLang.Vars
+import MalVerif.Py.GenLangType.Typing
+import MalVerif.Py.GenLangType.Build
+import MalVerif.Py.AbsLangGraph
+import MalVerif.Py.GenClasses.Factory
+import MalVerif.Py.AbsClasses
 open Lean MalVerif
 
 namespace Drv
@@ -1073,6 +1091,879 @@ def opGenResolve (j : Json) : R Json := do
 
 end GenXL
 
+/-! #### graph generation (`genexec2`): `AttackGraph(lang_graph, model)` / `create_attack_graph` of the GENERATED code.
+The language graph is the generated `lg__generate_graph` on the specification heap `loadPy L` (`PyW.newLanguageGraph`), the
+model heap is built by the generated `model_add_asset` / `model_add_association` (as `langgen.build_model` builds the real
+one) or — mode `wrapper` — by the generated `model__from_dict` inside the generated `create_attack_graph`, the graph by the
+generated `graph___init__` in the environment `PyW.evalEnvOf` of the two heaps (every callee the generated function of its
+domain). -/
+namespace GenXW
+open MalVerif.Py
+
+def wErrName : PyW.WErr → String
+  | .badZipFile => "BadZipFile" | .fileError => "FileError" | .valueError => "ValueError" | .keyError => "KeyError"
+  | .typeError => "TypeError" | .systemExit c => s!"SystemExit({c})"
+  | .lang e => GenX.pyErrName e | .model e => GenXM.pyErrName e | .graph e => GenX.pyErrName e
+
+/-- `langgen.build_model`: one pjs object per asset (constructor + `setattr` of the defenses: allocation), `add_asset(obj,
+asset_id=id)`; one association object per link, its two fields set to the asset objects, `add_association` -/
+def buildModelApi (m : Inst) (names0 : Option (List (Option String)) := none) : Except String PyM.H := do
+  let mut s : PyM.H := { name := "m" }
+  for (a, k) in m.assets.zipIdx do
+    -- `names0`: the names the objects are CONSTRUCTED with (`None`: `cls()`); `add_asset` then chooses the final name
+    let nm : Option String := match names0 with | some l => (l.getD k (some a.name)) | none => some a.name
+    let o : PyM.PyAsset := { type := a.type, name := nm, defenses := a.defenses }
+    match PyM.Gen.model_add_asset (PyM.newAssetObj s o) (GenXM.envOf s) s.afresh (some a.id) true with
+    | .ok s' => s := GenXM.normH s'
+    | .error e => throw (GenXM.pyErrName e)
+  -- `byid[i]`: the object built for the (last) asset with that id = its position in the list
+  let refOf (i : Int) : Except String Nat :=
+    match (m.assets.zipIdx.filter (fun e => e.1.id == i)).getLast? with
+    | some e => pure e.2
+    | none => throw "KeyError"
+  for l in m.links do
+    let left ← l.left.mapM refOf
+    let right ← l.right.mapM refOf
+    if h : l.lf ≠ l.rf then
+      match PyM.Gen.model_add_association (PyM.newAssocObj s { cls := l.cls, lf := l.lf, rf := l.rf, left := left, right := right, distinct := h })
+              (GenXM.envOf s) s.lfresh with
+      | .ok s' => s := GenXM.normH s'
+      | .error e => throw (GenXM.pyErrName e)
+    else throw "skip:one-field-association-class"
+  pure s
+
+/-- the attackers of the payload `[id, name, [[asset id, [steps]]]]`, added with the generated `model_add_attacker` -/
+def addAttackers (s0 : PyM.H) (m : Inst) (atts : List (Int × String × List (Int × List String))) : Except String PyM.H := do
+  let mut s := s0
+  for (i, nm, eps) in atts do
+    s := PyM.newAttObj s { name := some nm }
+    let t := s.tfresh - 1
+    for (aid, steps) in eps do
+      match (m.assets.zipIdx.filter (fun e => e.1.id == aid)).getLast? with
+      | none => throw "KeyError"
+      | some e =>
+        for st in steps do
+          s := PyM.Gen.attachment_add_entry_point s (GenXM.envOf s) t e.2 st
+    s := GenXM.normH (PyM.Gen.model_add_attacker s (GenXM.envOf s) t (some i))
+  pure s
+
+/-- the document `Model._to_dict` writes for this model, as `json.load` reads it back (keys of `assets` / `attackers` are
+strings) -/
+def docOfInst (m : Inst) (atts : List (Int × String × List (Int × List String))) : PyM.PyDoc :=
+  let k (i : Int) : Ser.Key := .s (toString i)
+  { metadata := some { name := some "m", langVersion := some "", langID := some "", malVersion := some "0.1.0-SNAPSHOT",
+                       MAL_Toolbox_Version_hyphen := some "", info := some "Created by the mal-toolbox model python module." }
+    assets := some (m.assets.map (fun a => (k a.id, .dict { name := some a.name, type := some a.type, defenses := some a.defenses })))
+    associations := some (m.links.map (fun l => [(l.cls, .fields [(l.lf, PyM.targetsOfInts l.left), (l.rf, PyM.targetsOfInts l.right)])]))
+    attackers := some (atts.map (fun (i, nm, eps) =>
+      (k i, { name := some nm, entry_points := some (eps.map (fun (a, sts) => (k a, { attack_steps := some sts }))) }))) }
+
+/-- the `ttc` of a generated node: a step dictionary of the specification heap is read through `Py.ttcDict` (W5), which keeps
+the canonical JSON text of the whole value under the pseudo-key `<json>` -/
+def ttcText (d : Option PyDictS) : String :=
+  match d with
+  | some l => (match l.find? (·.1 == "<json>") with | some e => e.2 | none => GenX.ttcToText d)
+  | none => "null"
+
+def obsGraph (s : H) : Json :=
+  let nid (r : Nat) : Json := GenX.jOptI (s.n r).id
+  let aid (a : Nat) : Json := GenX.jOptI (s.a a).id
+  jO [("nodes", jsonOfList (fun r =>
+          let o := s.n r
+          jO [("id", nid r), ("full_name", jS (Gen.node_full_name s r)), ("asset", Drv.jOptS (o.asset.map (·.name))),
+              ("name", jS o.name), ("type", jS o.type), ("ttc", jS (ttcText o.ttc)), ("tags", jsonOfList jS o.tags),
+              ("mitre", Drv.jOptS o.mitre_info), ("defense", Drv.jOptS (o.defense_status.map (·.text))),
+              ("exist", Drv.jOptB o.existence_status), ("viable", jB o.is_viable), ("necessary", jB o.is_necessary),
+              ("children", jsonOfList nid o.children), ("parents", jsonOfList nid o.parents),
+              ("compromised_by", jsonOfList aid o.compromised_by), ("extras", jS o.extras)]) s.nodes),
+      ("edges", Json.arr (s.nodes.flatMap (fun r => (s.n r).children.map (fun c => Json.arr #[nid r, nid c]))).toArray),
+      ("parent_edges", Json.arr (s.nodes.flatMap (fun r => (s.n r).parents.map (fun p => Json.arr #[nid p, nid r]))).toArray),
+      ("attackers", jsonOfList (fun a =>
+          let o := s.a a
+          jO [("id", aid a), ("name", jS o.name), ("entry_points", jsonOfList nid o.entry_points),
+              ("reached", jsonOfList nid o.reached_attack_steps)]) s.attackers),
+      ("idIdx", jsonOfList (fun (e : Int × Nat) => Json.arr #[jI e.1, nid e.2]) s._id_to_node),
+      ("nameIdx", jsonOfList (fun (e : String × Nat) => Json.arr #[jS e.1, nid e.2]) s._full_name_to_node),
+      ("next", Json.arr #[jI s.next_node_id, jI s.next_attacker_id])]
+
+def parseAtts (j : Json) : R (List (Int × String × List (Int × List String))) := do
+  match (← jfieldOpt jarr j "attackers") with
+  | none => pure []
+  | some l => l.mapM (fun e => do
+      match (← jarr e) with
+      | [i, nm, eps] =>
+        let eps ← (← jarr eps).mapM (fun ep => do
+          match (← jarr ep) with
+          | [a, sts] => pure ((← jint a), (← jlist jstr sts))
+          | _ => throw "bad entry point")
+        pure ((← jint i), (← jstr nm), eps)
+      | _ => throw "bad attacker")
+
+/-- op `gen_generate {lang, inst, attackers?, mode?, attach?, calc?, lookups?}` -/
+def opGenGenerate (j : Json) : R Json := do
+  let L ← Drv.parseLang (← jget j "lang")
+  let m ← Drv.parseInst (← jget j "inst")
+  let atts ← parseAtts j
+  let mode := (← jfieldOpt jstr j "mode").getD "api"
+  let attach := (← jfieldOpt jbool j "attach").getD false
+  let ana := (← jfieldOpt jbool j "calc").getD false
+  let again := (← jfieldOpt jnat j "again").getD 0
+  let names0 ← jfieldOpt (jlist (fun x => match x with | .null => pure none | _ => do pure (some (← jstr x)))) j "names0"
+  let lf := (← jfieldOpt jstr j "lang_file").getD "lang.mar"
+  let mf := (← jfieldOpt jstr j "model_file").getD "model.json"
+  let spec := LSpec.loadPy L
+  let doc := docOfInst m atts
+  let w0 : PyW.WEnv :=
+    { read_mar := fun p => if p == "lang.mar" then .ok spec else .error .badZipFile
+      compile_mal := fun p => if p == "lang.mal" then .ok spec else .error .fileError
+      load_yaml := fun p => if p == "model.yml" then .ok doc else .error .fileError
+      load_json := fun p => if p == "model.json" then .ok doc else .error .fileError
+      evalFuel := 1000, recLimit := 1000 }
+  let r : Except String PyW.WGraph :=
+    if mode == "wrapper" then
+      match PyW.Gen.create_attack_graph w0 lf mf attach ana with
+      | .ok g => .ok g
+      | .error e => .error (wErrName e)
+    else do
+      let mh ← buildModelApi m names0
+      let mh ← addAttackers mh m atts
+      let w := { w0 with menv := GenXM.envOf mh }
+      let run : Except PyW.WErr PyW.WGraph := do
+        let lg ← PyW.newLanguageGraph w spec
+        let mut g ← PyW.newAttackGraph w lg mh
+        -- `again = k`: k further `AttackGraph(lang_graph, model)` in the same process: the node store is the one the earlier
+        -- graphs left (their objects stay), the language graph is the one the earlier graph kept; the LAST graph is returned
+        for _ in List.range again do
+          g ← PyW.newAttackGraph { w with gstore := GenX.normH g.h } g.lang_graph mh
+        if attach then g ← PyW.agAttachAttackers w g
+        if ana then g ← PyW.agCalculate w g
+        pure g
+      match run with
+      | .ok g => .ok g
+      | .error e => .error (wErrName e)
+  match r with
+  | .error e => pure (jO [("error", jS e)])
+  | .ok g =>
+    let s := GenX.normH g.h
+    let ids := (← jfieldOpt (jlist jint) j "ids").getD []
+    let names := (← jfieldOpt (jlist jstr) j "names").getD []
+    let f (o : Option Nat) : Json := match o with | some r => GenX.jOptI (s.n r).id | none => Json.null
+    pure (jO [("graph", obsGraph s),
+              ("lookups", jO [("ids", jsonOfList (fun i => f (Gen.graph_get_node_by_id s i)) ids),
+                              ("names", jsonOfList (fun n => f (Gen.graph_get_node_by_full_name s n)) names)])])
+
+end GenXW
+/-! #### the legacy loaders of `Py/GenLegacy` on the documents the harness wrote (C18) -/
+namespace GenXLeg
+open MalVerif.PyM MalVerif.PyLeg
+
+def lErrName : LErr → String
+  | .py e => GenXM.pyErrName e | .validation => "ValidationError" | .typeError => "TypeError" | .unmodelled => "unmodelled"
+
+/-- what `json.loads` / `yaml.safe_load` returned, as the harness sends it: `null`, `true`/`false`, a string, a list, and
+tagged `{"i": "<decimal>"}` (int, any size), `{"f": "<repr>"}` (float, canonical text), `{"d": [[key, value], …]}` (dict in
+insertion order; keys `str` / `int` as in the file) -/
+partial def parsePyJ (j : Json) : R PyJ :=
+  match j with
+  | .null => pure .null
+  | .bool b => pure (.bool b)
+  | .str t => pure (.str t)
+  | .arr a => do pure (.list (← a.toList.mapM parsePyJ))
+  | .num _ => throw "untagged number in a document"
+  | .obj _ =>
+    match j.getObjVal? "i", j.getObjVal? "f", j.getObjVal? "d" with
+    | .ok v, _, _ => do
+      match (← jstr v).toInt? with
+      | some i => pure (.int i)
+      | none => throw "bad int text"
+    | _, .ok v, _ => do pure (.num (← jstr v))
+    | _, _, .ok v => do
+      let kvs ← (← jarr v).mapM (fun e => do
+        match (← jarr e) with
+        | [k, x] =>
+          match jKey (← parsePyJ k) with
+          | some key => pure (key, (← parsePyJ x))
+          | none => throw "dictionary key that is neither str nor int"
+        | _ => throw "bad dictionary entry")
+      pure (.dict kvs)
+    | _, _, _ => throw "bad document value"
+
+/-- one layer of the file boundary: the document that layer returns for the file, or the class of what it raises -/
+def parseLayer (j : Json) (k : String) : R (Except LErr PyJ) :=
+  match j.getObjVal? k with
+  | .error _ => pure (.error (.py .other))
+  | .ok v =>
+    match v.getObjVal? "raises" with
+    | .ok e => do pure (.error (if (← jstr e) == "ValueError" then .py .valueError else .py .other))
+    | .error _ => do pure (.ok (← parsePyJ v))
+
+def parseScad (j : Json) : R Legacy.ScadDoc := do
+  let objects ← jfield (jlist (fun o => do
+    let defs ← jfield (jlist (fun e => do
+      match (← jarr e) with
+      | [a, b] => pure ((← jstr a), (← jstr b))
+      | _ => throw "bad evidence")) o "defenses"
+    pure ({ id := ← jfield jint o "id", name := ← jfield jstr o "name", metaConcept := ← jfield jstr o "metaConcept",
+            defenses := defs } : Legacy.ScadObject))) j "objects"
+  let assocs ← jfield (jlist (fun a => do
+    pure ({ sourceObject := ← jfield jint a "sourceObject", targetObject := ← jfield jint a "targetObject",
+            sourceProperty := ← jfield jstr a "sourceProperty", targetProperty := ← jfield jstr a "targetProperty" } : Legacy.ScadAssoc))) j "associations"
+  pure { objects := objects, associations := assocs }
+
+/-- the `LanguageGraph` object handed to the securiCAD loader: the heap `heapOfLang L nodes` (`Py/AbsLangGraph.lean`), asked
+with the GENERATED `get_association_by_fields_and_assets` of `Py/GenLang/Assocs.lean` -/
+def lgView (L : Lang) (nodes : List AssocDecl) : LangGraphView :=
+  let gh := MalVerif.Py.LSpec.heapOfLang L nodes
+  { get_association_by_fields_and_assets := fun f1 f2 t1 t2 =>
+      match MalVerif.Py.GenLang.lg_get_association_by_fields_and_assets gh f1 f2 t1 t2 with
+      | .ok (some c) => .ok (some (MalVerif.Py.LSpec.declOf gh c))
+      | .ok none => .ok none
+      | .error .lookupError => .error (.py .lookupError)
+      | .error .nonTermination => .error (.py .nonTermination)
+      | .error _ => .error (.py .other) }
+
+def render (L : Lang) (r : Except LErr (Option H)) : Json :=
+  match r with
+  | .error e => jO [("error", jS (lErrName e))]
+  | .ok none => jO [("none", jB true)]
+  | .ok (some s) => let s := GenXM.normH s; jO [("loaded", Drv.obsM L (abs s)), ("name", jS s.name)]
+
+/-- `which = "old"`: `load_model_from_older_version(file, factory, version)` on the file whose content the two layers of the
+boundary return as `json` / `yaml`; `which = "scad"`: `load_model_from_scad_archive(file, lang_graph, factory)` on the parsed
+archive `eom`.  Parameters of the translation: pjs `==` relates no two different objects (assets of one model differ in `id`),
+`whileFuel` = number of entries + 2, `floatOk` = not listed in `badFloats` (the range check as the real library made it). -/
+def opGenLegacy (j : Json) : R Json := do
+  let L ← Drv.parseLang (← jget j "lang")
+  let which ← jfield jstr j "which"
+  let file ← jfield jstr j "file"
+  let bad := (← jfieldOpt (jlist jstr) j "badFloats").getD []
+  let fac : Factory := { L := L, floatOk := fun t => !bad.contains t }
+  let absent {α : Type} : String → Except LErr α := fun _ => .error (.py .other)
+  if which == "old" then
+    let js ← parseLayer j "json"
+    let ys ← parseLayer j "yaml"
+    let version ← jfield jstr j "version"
+    let size (d : Except LErr PyJ) : Nat := match d with
+      | .ok (.dict m) => (match lookupKey m (.s "assets") with | some (.dict a) => a.length | _ => 0)
+      | _ => 0
+    let files : Files := { json := fun f => if f == file then js else absent f, yaml := fun f => if f == file then ys else absent f, eom := absent }
+    let env : ModelEnv := { eqA := fun _ _ => false, eqL := fun _ _ => false, whileFuel := max (size js) (size ys) + 2 }
+    pure (render L ((Gen.updater_load_model_from_older_version files env file fac version).map some))
+  else
+    let d ← parseScad (← jget j "eom")
+    match LG.generate L with
+    | .error e => pure (jO [("skip", jS (Drv.lgErrName e))])
+    | .ok g =>
+      let files : Files := { json := absent, yaml := absent, eom := fun f => if f == file then .ok d else absent f }
+      let env : ModelEnv := { eqA := fun _ _ => false, eqL := fun _ _ => false, whileFuel := d.objects.length + 2 }
+      pure (render L (Gen.securicad_load_model_from_scad_archive files env file (lgView L g.assocs) fac))
+
+end GenXLeg
+
+/-! #### the Neo4j ingestor of `Py/GenNeo4j` on the recording database of the prelude (C19) -/
+namespace GenXNeo
+open MalVerif.PyN
+
+/-- the recorded database: every stored node with all labels and all properties (in the order of the keyword arguments),
+every stored relationship between positions, in stored order -/
+def dbToJson (db : Db) : Json :=
+  jO [("nodes", jsonOfList (fun (n : NeoNode) => jO [("labels", jsonOfList jS n.labels),
+          ("props", jsonOfList (fun (e : String × String) => Json.arr #[jS e.1, jS e.2]) n.props)]) db.nodes),
+      ("rels", jsonOfList (fun (r : DbRel) => Json.arr #[jN r.src, jS r.type, jN r.dst]) db.rels)]
+
+/-- the language side of `get_model` (parameters of the translation): the `LanguageGraph` object is `heapOfLang L nodes` asked
+with the GENERATED `get_association_by_fields_and_assets` (`GenXLeg.lgView`), `get_association_by_signature` and the class
+namespace are the conventions of `PreludeLegacy` (`facAssocBySignature`, `MS.assocClasses`) -/
+def neoEnv (L : Lang) (nodes : List AssocDecl) (menv : PyM.ModelEnv) : NeoEnv :=
+  let lg := GenXLeg.lgView L nodes
+  let fac : PyLeg.Factory := { L := L, floatOk := fun _ => true }
+  let cv {α : Type} (r : Except PyLeg.LErr α) : Except PyM.PyErr α :=
+    match r with | .ok a => .ok a | .error (.py e) => .error e | .error _ => .error .other
+  { menv := menv
+    get_association_by_fields_and_assets := fun f1 f2 t1 t2 =>
+      match cv (lg.get_association_by_fields_and_assets f1 f2 t1 t2) with
+      | .ok (some d) => .ok (some { name := d.name, left_field := ⟨⟨d.leftAsset⟩, d.leftField⟩, right_field := ⟨⟨d.rightAsset⟩, d.rightField⟩ })
+      | .ok none => .ok none
+      | .error e => .error e
+    get_association_by_signature := fun n l r => cv (PyLeg.facAssocBySignature fac n l r)
+    ns_has := fun t => (L.findAsset t).isSome || (MS.assocClasses L).any (·.cls = t)
+    ns_new_asset := fun t n => if (L.findAsset t).isSome then .ok { type := t, name := some n } else .error .attributeError
+    ns_new_assoc := fun c =>
+      match (MS.assocClasses L).find? (·.cls = c) with
+      | some k => if h : k.lf ≠ k.rf then .ok { cls := c, lf := k.lf, rf := k.rf, distinct := h } else .error .other
+      | none => .error .attributeError }
+
+/-- the model built by the history (generated `model_*` functions, as `gen_model_hist`), `ingest_model(model, …, delete=True)`
+into the empty recording database, then `get_model(…)` over what was stored -/
+def opGenNeo4jModel (j : Json) : R Json := do
+  let L ← Drv.parseLang (← jget j "lang")
+  let ops ← jfield jarr j "ops"
+  let mut s : PyM.H := { name := "hist" }
+  for o in ops do
+    let (s', err, _) ← GenXM.mStepGen L s o
+    if let .str e := err then
+      if e.startsWith "skip:" then return jO [("skip", jS e)]
+    s := GenXM.normH s'
+  match Gen.ingest_model {} s "uri" "u" "p" "db" true with
+  | .error e => pure (jO [("error", jS (GenXM.pyErrName e))])
+  | .ok w =>
+    let sub := dbToJson w.db
+    match LG.generate L with
+    | .error e => pure (jO [("sub", sub), ("objs", jN w.objs.length), ("back", jO [("skip", jS (Drv.lgErrName e))])])
+    | .ok lg =>
+      let menv : PyM.ModelEnv := { eqA := fun _ _ => false, eqL := fun _ _ => false, whileFuel := w.db.nodes.length + 2 }
+      let back := match Gen.get_model w (neoEnv L lg.assocs menv) "uri" "u" "p" "db" with
+        | .ok s' => let s' := GenXM.normH s'; jO [("loaded", Drv.obsM L (PyM.abs s')), ("name", jS s'.name)]
+        | .error e => jO [("error", jS (GenXM.pyErrName e))]
+      pure (jO [("sub", sub), ("objs", jN w.objs.length), ("back", back)])
+
+/-- the attack graph built by the history (generated functions, as `gen_ag_hist`), `ingest_attack_graph(graph, …, delete=True)` -/
+def opGenNeo4jGraph (j : Json) : R Json := do
+  let ops ← jfield jarr j "ops"
+  let mut s : MalVerif.Py.H := {}
+  for o in ops do
+    let (s', _, _) ← GenX.agStepGen s o
+    s := GenX.normH s'
+  match Gen.ingest_attack_graph {} s "uri" "u" "p" "db" true with
+  | .error e => pure (jO [("error", jS (GenX.pyErrName e))])
+  | .ok w => pure (jO [("sub", dbToJson w.db), ("objs", jN w.objs.length)])
+
+end GenXNeo
+/-! #### `genexec2` / serialisers (tag `serial`): the documents of the generated `graph__to_dict` and the generated
+`graph__from_dict` on REAL documents (notes/NOTES_genexec2_serial.md).  Ordered rendering of Python values (Lean's `Json`
+objects sort their keys): a dictionary is `["d", [[key, value], …]]` (keys: JSON numbers for `int`, strings for `str`), a
+list `["l", […]]`, a `ttc` dictionary `["t", [[key, text], …]]` (the `PyDictS` convention: the value under `name` is the
+string itself, every other value its compressed JSON text), a non-empty `extras` dictionary `["j", canonical JSON text]`. -/
+namespace GenXS
+open MalVerif.Ser (Key)
+section AG
+open MalVerif.Py
+
+def jKey : Key → Json | .i n => jI n | .s t => jS t
+def jD (kvs : List (Json × Json)) : Json :=
+  Json.arr #[jS "d", Json.arr (kvs.map (fun (e : Json × Json) => Json.arr #[e.1, e.2])).toArray]
+
+def atomToJson : PyAtom → Json
+  | .none => Json.null
+  | .int i => jI i
+  | .str t => jS t
+  | .strs l => Json.arr #[jS "l", jsonOfList jS l]
+  | .idmap d => jD (d.map (fun e => (jKey e.1, jS e.2)))
+  | .dictS d => Json.arr #[jS "t", jsonOfList (fun (e : String × String) => Json.arr #[jS e.1, jS e.2]) d]
+  | .json t => Json.arr #[jS "j", jS t]
+
+def dictAToJson (d : PyDictA) : Json := jD (d.map (fun e => (jS e.1, atomToJson e.2)))
+def docToJson (d : PyDoc) : Json := jD (d.map (fun top => (jS top.1, jD (top.2.map (fun e => (jS e.1, dictAToJson e.2))))))
+
+/-- what the generated `AttackGraph._to_dict` returns for the graph of the heap (or the class of the exception) -/
+def toDictJson (s : H) : Json :=
+  match Gen.graph__to_dict (s.attackers.length + 2) s with
+  | .ok d => docToJson d
+  | .error e => jO [("error", jS (GenX.pyErrName e))]
+
+/-- `gen_ag_todict {ops, pos}`: the history of `gen_ag_hist` replayed with the same glue (`GenX.agStepGen`, `saveLoadGen`,
+`deepcopyGen`); BEFORE every step whose index is listed in `pos` (and after the last step when `pos` lists `len(ops)`): the
+document of the generated `_to_dict` for the current graph and for the other side of a deep copy -/
+def opGenAgTodict (j : Json) : R Json := do
+  let ops ← jfield jarr j "ops"
+  let pos ← jfield (jlist jnat) j "pos"
+  let mut s : H := {}
+  let mut other : Option PyGraph := none
+  let mut outs : Array Json := #[]
+  let snap (p : Nat) (s : H) (other : Option PyGraph) : Json :=
+    jO [("pos", jN p), ("doc", toDictJson s),
+        ("other", match other with | some t => toDictJson (s.withGraph t) | none => Json.null)]
+  let mut i := 0
+  for o in ops do
+    if pos.contains i then outs := outs.push (snap i s other)
+    let k ← jfield jstr o "k"
+    if k == "save_load" then
+      match GenX.saveLoadGen s (← jfield jstr o "fmt") (← jfield jbool o "withModel") with
+      | .ok s' => s := s'; other := none
+      | .error _ => pure ()
+    else if k == "deepcopy" then
+      match GenX.deepcopyGen s with
+      | .ok (s', og) => s := s'; other := some og
+      | .error _ => pure ()
+    else if k == "switch" then
+      match other with
+      | some t =>
+        let cur := GenX.graphOf s
+        s := s.withGraph t
+        other := some cur
+      | none => throw "switch without deepcopy"
+    else
+      let (s', _, _) ← GenX.agStepGen s o
+      s := s'
+    s := GenX.normH s
+    i := i + 1
+  if pos.contains i then outs := outs.push (snap i s other)
+  pure (Json.arr outs)
+
+def parsePairs {α β} (fk : Json → R α) (fv : Json → R β) (j : Json) : R (List (α × β)) :=
+  jlist (fun e => do
+    match (← jarr e) with
+    | [k, v] => pure ((← fk k), (← fv v))
+    | _ => throw "bad pair") j
+
+def parseKey (j : Json) : R Key :=
+  match j with
+  | .str t => pure (.s t)
+  | _ => do pure (.i (← jint j))
+
+/-- a value of a node / attacker dictionary of a REAL document (ordered rendering above); Python values that `PyAtom`
+cannot express (floats, booleans, nested lists …) are refused -/
+def parseAtom (j : Json) : R PyAtom :=
+  match j with
+  | .null => pure .none
+  | .str t => pure (.str t)
+  | .num _ => do pure (.int (← jint j))
+  | .arr #[.str "l", l] => do pure (.strs (← jlist jstr l))
+  | .arr #[.str "d", d] => do pure (.idmap (← parsePairs parseKey jstr d))
+  | .arr #[.str "t", d] => do pure (.dictS (← parsePairs jstr jstr d))
+  | .arr #[.str "j", .str t] => pure (.json t)
+  | _ => throw s!"value not representable as PyAtom: {j.compress}"
+
+def parseD {α} (f : Json → R α) (j : Json) : R (List (String × α)) :=
+  match j with
+  | .arr #[.str "d", d] => parsePairs jstr f d
+  | _ => throw "dictionary expected"
+
+def parseDoc (j : Json) : R PyDoc := parseD (parseD (parseD parseAtom)) j
+
+/-- `gen_ag_fromdict {doc, withModel}`: the generated `AttackGraph._from_dict` on a document as the REAL file layer
+returned it; the loaded heap is observed like a step of `gen_ag_hist`, and saved again with the generated `_to_dict` -/
+def opGenAgFromdict (j : Json) : R Json := do
+  let d ← parseDoc (← jget j "doc")
+  let model : Option PyModel :=
+    if (← jfield jbool j "withModel") then some { get_asset_by_name := fun nm => some (GenX.assetOfName nm) } else none
+  match Gen.graph__from_dict {} d model with
+  | .error e => pure (jO [("err", jS (GenX.pyErrName e))])
+  | .ok (s', aux) =>
+    let s := GenX.normH { s' with nfresh := aux.nfresh, afresh := aux.afresh }
+    pure (jO [("err", Json.null), ("obs", GenX.obsH s), ("resaved", toDictJson s)])
+
+end AG
+
+/-! ##### instance models (`Py/GenMSerial`): `model__to_dict` on the heap built from the payload of `ser_model`, `model__from_dict`
+on REAL documents.  Rendering as above; additionally `["r", [[key, value], …]]` is a dictionary with a FIXED key set, which
+the prelude represents as a record: the order of its keys is not represented by the translation (the glue lists the fields
+that are present in the order of the structure declaration; the harness compares such a dictionary as a set of items),
+and `["f", text]` is a `float` (its canonical text). -/
+namespace M
+open MalVerif.PyM
+
+def jR (kvs : List (String × Option Json)) : Json :=
+  Json.arr #[jS "r", Json.arr (kvs.filterMap (fun (e : String × Option Json) => e.2.map (fun v => Json.arr #[jS e.1, v]))).toArray]
+def jF (t : String) : Json := Json.arr #[jS "f", jS t]
+def jJ (t : String) : Json := Json.arr #[jS "j", jS t]
+def jL (l : List Json) : Json := Json.arr #[jS "l", Json.arr l.toArray]
+
+def assetVToJson : PyAssetV → Json
+  | .str t => jS t
+  | .dict d => jR [("name", d.name.map jS), ("type", d.type.map jS),
+                   ("defenses", d.defenses.map (fun ds => jD (ds.map (fun e => (jS e.1, jF e.2))))), ("extras", d.extras.map jJ)]
+def targetsToJson : PyTargets → Json
+  | .list l => jL (l.map jKey)
+  | .one k => jKey k
+def assocVToJson : PyAssocV → Json
+  | .fields d => jD (d.map (fun e => (jS e.1, targetsToJson e.2)))
+  | .json t => jJ t
+def attDToJson (d : PyAttD) : Json :=
+  jR [("name", d.name.map jS),
+      ("entry_points", d.entry_points.map (fun eps => jD (eps.map (fun e =>
+          (jKey e.1, jR [("attack_steps", e.2.attack_steps.map (fun l => jL (l.map jS)))])))))]
+def metaToJson (m : PyMeta) : Json :=
+  jR [("name", m.name.map jS), ("langVersion", m.langVersion.map jS), ("langID", m.langID.map jS), ("malVersion", m.malVersion.map jS),
+      ("MAL-Toolbox Version", m.MAL_Toolbox_Version_hyphen.map jS), ("MAL Toolbox Version", m.MAL_Toolbox_Version_space.map jS),
+      ("info", m.info.map jS)]
+def docToJson (d : PyDoc) : Json :=
+  jR [("metadata", d.metadata.map metaToJson),
+      ("assets", d.assets.map (fun l => jD (l.map (fun e => (jKey e.1, assetVToJson e.2))))),
+      ("associations", d.associations.map (fun l => jL (l.map (fun a => jD (a.map (fun e => (jS e.1, assocVToJson e.2))))))),
+      ("attackers", d.attackers.map (fun l => jD (l.map (fun e => (jKey e.1, attDToJson e.2)))))]
+
+/-- the pjs range check of a defense value (`number`, minimum 0, maximum 1) on the canonical text of a float -/
+def floatOk (t : String) : Bool :=
+  match Json.parse t with
+  | .ok (.num n) => decide (0 ≤ n.mantissa) && decide (n.mantissa ≤ (10 : Int) ^ n.exponent)
+  | _ => false
+
+/-- `meta` = [lang_graph.metadata['version'], lang_graph.metadata['id'], maltoolbox.__version__] -/
+def senvOf (L : Lang) (m : ModelEnv) (j : Json) : R SEnv := do
+  match (← jfield (jlist jstr) j "meta") with
+  | [v, i, t] => pure { model := m, lang := L, floatOk := floatOk, lang_version := v, lang_id := i, toolbox_version := t }
+  | _ => throw "bad meta"
+
+def toDictJson (s : H) (env : SEnv) : Json :=
+  match Gen.model__to_dict s env with
+  | .ok d => docToJson d
+  | .error e => jO [("error", jS (GenXM.pyErrName e))]
+
+/-- `gen_ser_model {lang, ops, meta}`: the payload of `ser_model`; the heap is built by the generated mutators (the glue of
+`gen_model_hist`), then the generated `Model._to_dict` -/
+def opGenSerModel (j : Json) : R Json := do
+  let L ← Drv.parseLang (← jget j "lang")
+  let ops ← jfield jarr j "ops"
+  let mut s : H := { name := "hist" }
+  for o in ops do
+    let (s', err, _) ← GenXM.mStepGen L s o
+    match err with
+    | .str e => if e.startsWith "skip:" then return jO [("skip", jS e)]
+    | _ => pure ()
+    s := GenXM.normH s'
+  let env ← senvOf L (GenXM.envOf s) j
+  pure (jO [("doc", toDictJson s env), ("obs", Drv.obsM L (abs s))])
+
+def unrep {α} (what : String) : R α := throw s!"unrepresentable: {what}"
+
+/-- the items of a dictionary `["d", [[k, v], …]]` -/
+def items (what : String) (j : Json) : R (List (Json × Json)) :=
+  match j with
+  | .arr #[.str "d", d] => GenXS.parsePairs pure pure d
+  | _ => unrep s!"{what}: dictionary expected, got {j.compress}"
+def field (kvs : List (Json × Json)) (k : String) : Option Json :=
+  (kvs.find? (fun e => match e.1 with | .str t => t == k | _ => false)).map (·.2)
+def optField {α} (kvs : List (Json × Json)) (k : String) (f : Json → R α) : R (Option α) :=
+  match field kvs k with | some v => some <$> f v | none => pure none
+def pStr (what : String) (j : Json) : R String :=
+  match j with | .str t => pure t | _ => unrep s!"{what}: str expected, got {j.compress}"
+def pKey (what : String) (j : Json) : R Key :=
+  match j with
+  | .str t => pure (.s t)
+  | .num n => if n.exponent == 0 then pure (.i n.mantissa) else unrep s!"{what}: key {j.compress}"
+  | _ => unrep s!"{what}: key {j.compress}"
+def pJsonText (what : String) (j : Json) : R String :=
+  match j with | .arr #[.str "j", .str t] => pure t | _ => unrep s!"{what}: extras dictionary expected, got {j.compress}"
+def pList {α} (what : String) (f : Json → R α) (j : Json) : R (List α) :=
+  match j with | .arr #[.str "l", l] => jlist f l | _ => unrep s!"{what}: list expected, got {j.compress}"
+
+def pAssetV (j : Json) : R PyAssetV :=
+  match j with
+  | .str t => pure (.str t)
+  | _ => do
+    let kvs ← items "asset entry" j
+    pure (.dict { name := ← optField kvs "name" (pStr "asset name"), type := ← optField kvs "type" (pStr "asset type"),
+                  defenses := ← optField kvs "defenses" (fun d => do
+                    (← items "defenses" d).mapM (fun e => do
+                      let v ← match e.2 with
+                        | .arr #[.str "f", .str t] => pure t
+                        | x => unrep s!"defense value {x.compress}"
+                      pure ((← pStr "defense name" e.1), v))),
+                  extras := ← optField kvs "extras" (pJsonText "asset extras") })
+def pTargets (j : Json) : R PyTargets :=
+  match j with
+  | .arr #[.str "l", l] => do pure (.list (← jlist (pKey "association member") l))
+  | _ => do pure (.one (← pKey "association member" j))
+def pAssocV (j : Json) : R PyAssocV :=
+  match j with
+  | .arr #[.str "j", .str t] => pure (.json t)
+  | _ => do pure (.fields (← (← items "association fields" j).mapM (fun e => do pure ((← pStr "field name" e.1), (← pTargets e.2)))))
+def pAttD (j : Json) : R PyAttD := do
+  let kvs ← items "attacker entry" j
+  pure { name := ← optField kvs "name" (pStr "attacker name"),
+         entry_points := ← optField kvs "entry_points" (fun d => do
+           (← items "entry_points" d).mapM (fun e => do
+             let ep ← items "entry point" e.2
+             pure ((← pKey "entry point" e.1),
+                   ({ attack_steps := ← optField ep "attack_steps" (pList "attack_steps" (pStr "attack step")) } : PyEpD)))) }
+def pMeta (j : Json) : R PyMeta := do
+  let kvs ← items "metadata" j
+  let f (k : String) := optField kvs k (pStr s!"metadata {k}")
+  pure { name := ← f "name", langVersion := ← f "langVersion", langID := ← f "langID", malVersion := ← f "malVersion",
+         MAL_Toolbox_Version_hyphen := ← f "MAL-Toolbox Version", MAL_Toolbox_Version_space := ← f "MAL Toolbox Version", info := ← f "info" }
+def pDoc (j : Json) : R PyDoc := do
+  let kvs ← items "document" j
+  pure { metadata := ← optField kvs "metadata" pMeta,
+         assets := ← optField kvs "assets" (fun d => do (← items "assets" d).mapM (fun e => do pure ((← pKey "asset id" e.1), (← pAssetV e.2)))),
+         associations := ← optField kvs "associations" (pList "associations" (fun a => do
+           (← items "association entry" a).mapM (fun e => do pure ((← pStr "association key" e.1), (← pAssocV e.2))))),
+         attackers := ← optField kvs "attackers" (fun d => do (← items "attackers" d).mapM (fun e => do pure ((← pKey "attacker id" e.1), (← pAttD e.2)))) }
+
+/-- `gen_load_doc {lang, doc, meta}`: the generated `Model._from_dict` on a document as the REAL file layer returned it (or
+a hand-edited one).  pjs `==` (parameter `ModelEnv`): identity — inside `_from_dict` it is asked only of assets of the one
+model under construction, whose ids are pairwise distinct.  A document with a value the prelude types cannot hold is
+answered `unrepresentable: …` (not an error of the generated code). -/
+def opGenLoadDoc (j : Json) : R Json := do
+  let L ← Drv.parseLang (← jget j "lang")
+  let d ← pDoc (← jget j "doc")
+  let env ← senvOf L { eqA := fun _ _ => false, eqL := fun _ _ => false, whileFuel := (d.assets.getD []).length + 2 } j
+  match Gen.model__from_dict {} env d with
+  | .error e => pure (jO [("err", jS (GenXM.pyErrName e))])
+  | .ok s' =>
+    let s := GenXM.normH s'
+    pure (jO [("err", Json.null), ("name", jS s.name), ("loaded", Drv.obsM L (abs s)),
+              ("resaved", toDictJson s { env with model := GenXM.envOf s })])
+
+end M
+
+end GenXS
+/-! #### `_generate_graph` of `Py/GenLangType` and the lookups of `Py/GenLang` (C15) -/
+namespace GenXG
+open MalVerif.Py MalVerif.Py.LSpec MalVerif.Py.LType
+
+/-- the classes of `languagegraph.py` behind the labels of prelude convention 11 of `PreludeLangType` (raised by the
+construction); everything else as in `GenX.pyErrName` -/
+def errName : PyErr → String
+  | .lookupError => "LanguageGraphSuperAssetNotFoundError"
+  | .attackGraphException => "LanguageGraphAssociationError"
+  | .attackGraphStepExpressionError => "LanguageGraphStepExpressionError"
+  | .languageGraphException => "LanguageGraphException"
+  | e => GenX.pyErrName e
+
+/-- constant-time object stores (the heap updates of the generated code build chains of closures; pure representation change) -/
+def normT (s : TH) : TH :=
+  let aa := (Array.range s.nextA).map s.g.asset
+  let ca := (Array.range s.nextC).map s.g.assoc
+  let sa := (Array.range s.nextA).map s.asteps
+  let da := (Array.range s.nextA).map s.adesc
+  let dc := (Array.range s.nextC).map s.cdesc
+  { s with g := { s.g with asset := fun r => aa.getD r {}, assoc := fun r => ca.getD r {} },
+           asteps := fun r => sa.getD r [], adesc := fun r => da.getD r "{}", cdesc := fun r => dc.getD r "{}" }
+
+/-- an object reference as its position in the list of the language graph that holds the objects of its kind
+(`LanguageGraph.assets` / `.associations` / `.attack_steps`); `-1`: not in that list -/
+def idxJ (l : List Nat) (r : Nat) : Json := match l.idxOf? r with | some i => jN i | none => jI (-1)
+
+/-- a `DependencyChain` object, attribute by attribute: `[type, next_link, fieldname, association, left_chain,
+right_chain, subtype]` -/
+partial def chainJ (s : TH) : PyDepChain → Json
+  | .mk t n f a l r st =>
+    let o (x : Option PyDepChain) : Json := match x with | some c => chainJ s c | none => Json.null
+    Json.arr #[jS t, o n, jS f, (match a with | some c => idxJ s.g.associations c | none => Json.null), o l, o r,
+               (match st with | some x => idxJ s.g.assets x | none => Json.null)]
+
+/-- the heap `_generate_graph` leaves, read off object by object (no abstraction: lists in their order, the
+`children` / `parents` dictionaries in insertion order with their lists and dependency chains) -/
+def graphJ (s : TH) : Json :=
+  let aidx := idxJ s.g.assets
+  let cidx := idxJ s.g.associations
+  let tidx := idxJ s.attack_steps
+  let store := absStore s.spec
+  let linkJ (d : List (String × List (GSRef × Option PyDepChain))) : Json :=
+    jsonOfList (fun (e : String × List (GSRef × Option PyDepChain)) => Json.arr #[jS e.1,
+      jsonOfList (fun (p : GSRef × Option PyDepChain) =>
+        Json.arr #[tidx p.1, match p.2 with | some c => chainJ s c | none => Json.null]) e.2]) d
+  let fJ (f : PyLGField) : Json :=
+    Json.arr #[aidx f.asset, jS f.fieldname, jI f.minimum, (if f.maximum < 0 then Json.null else jI f.maximum)]
+  jO [("assets", jsonOfList (fun r =>
+          let o := s.g.asset r
+          Json.arr #[Drv.jOptS o.name, Drv.jOptB o.is_abstract, jS (s.adesc r), jsonOfList cidx o.associations,
+                     jsonOfList tidx (s.asteps r), jsonOfList aidx o.super_assets, jsonOfList aidx o.sub_assets]) s.g.assets),
+      ("assocs", jsonOfList (fun c =>
+          let o := s.g.assoc c
+          Json.arr #[jS o.name, fJ o.left_field, fJ o.right_field, jS (s.cdesc c)]) s.g.associations),
+      ("steps", jsonOfList (fun t =>
+          let o := s.gstep t
+          Json.arr #[jS o.name, jS o.type, aidx o.asset, jS o.ttc, jS o.description,
+                     (match o.attributes with
+                      | some r => Drv.stepToJson (readStep store (absStep s.spec r))
+                      | none => Json.null),
+                     linkJ o.children, linkJ o.parents]) s.attack_steps)]
+
+def jExc {α} (f : α → Json) (x : Except PyErr α) : Json :=
+  match x with | .ok v => f v | .error e => jO [("error", jS (GenX.pyErrName e))]
+
+def jOptRef (l : List Nat) (x : Option Nat) : Json := match x with | some r => idxJ l r | none => Json.null
+
+/-- `LanguageGraph(spec)` = the GENERATED `lg__generate_graph` on a heap that holds nothing but the loaded specification
+(`PreludeWrapper` W3: `newLanguageGraph`; `runBuild` of `Py/AbsLangType`), then the GENERATED lookups of `Py/GenLang` (and the two helpers of
+`Py/GenLangType/Typing`) asked of the heap it returned -/
+def opGenLangGraph (j : Json) : R Json := do
+  let L ← Drv.parseLang (← jget j "lang")
+  let recLimit := (← jfieldOpt jnat j "recLimit").getD 1000
+  let quads := (← jfieldOpt (jlist (fun e => do
+    match (← jarr e) with
+    | [a, b, c, d] => pure ((← jstr a), (← jstr b), (← jstr c), (← jstr d))
+    | _ => throw "bad quad")) j "lookups").getD []
+  let byname := (← jfieldOpt (jlist jstr) j "byname").getD []
+  let vars := (← jfieldOpt (jlist (fun e => do
+    match (← jarr e) with
+    | [a, b] => pure ((← jstr a), (← jstr b))
+    | _ => throw "bad variable query")) j "vars").getD []
+  let aq := (← jfieldOpt (jlist (fun e => do
+    match (← jarr e) with
+    | [a, b, c] => pure ((← jnat a), (← jstr b), (← jnat c))
+    | _ => throw "bad association query")) j "aq").getD []
+  let common := (← jfieldOpt (jlist (fun e => do
+    match (← jarr e) with
+    | [a, b] => pure ((← jnat a), (← jnat b))
+    | _ => throw "bad pair")) j "common").getD []
+  let wantQ := (← jfieldOpt jbool j "queries").getD false
+  match GenLangType.lg__generate_graph (TH.init (loadPy L) recLimit) with
+  | .error e => pure (jO [("error", jS (errName e))])
+  | .ok s1 =>
+    let s := normT s1
+    let g := s.g
+    let aidx := idxJ g.assets
+    let refs (l : List Nat) : Json := jsonOfList aidx l
+    let base : List (String × Json) :=
+      [("graph", graphJ s),
+       ("specUnchanged", jB ((GenXL.langToJson (absLang s.spec)).compress == (GenXL.langToJson L).compress))]
+    if !wantQ then pure (jO base) else
+    let aAt (i : Nat) : Nat := g.assets.getD i g.assets.length
+    let cAt (i : Nat) : Nat := g.associations.getD i g.associations.length
+    pure <| jO (base ++ [
+      ("isSub", jsonOfList (fun a => jsonOfList (fun b => jExc jB (GenLang.lgasset_is_subasset_of g a b)) g.assets) g.assets),
+      ("isSubNone", jsonOfList (fun a => jExc jB (GenLangType.lgasset_is_subasset_of s a none)) g.assets),
+      ("supers", jsonOfList (fun a => jExc refs (GenLang.lgasset_get_all_superassets g a)) g.assets),
+      ("subs", jsonOfList (fun a => jExc refs (GenLang.lgasset_get_all_subassets g a)) g.assets),
+      ("lookups", jsonOfList (fun (q : String × String × String × String) =>
+          jExc (jOptRef g.associations) (GenLang.lg_get_association_by_fields_and_assets g q.1 q.2.1 q.2.2.1 q.2.2.2)) quads),
+      ("byname", jsonOfList (fun n => jOptRef g.assets (GenLang.lg_get_asset_by_name g n)) byname),
+      ("vars", jsonOfList (fun (q : String × String) =>
+          jExc (fun (v : PyVarObj) => match v with
+                 | .expr e => jO [("expr", Drv.exprToJson (exprOfPy e))]
+                 | .var v => jO [("var", jS v.name)]
+                 | .none => Json.null)
+            (GenLang.lg__get_variable_for_asset_type_by_name (pyFuelL s.spec) s.spec q.1 q.2)) vars),
+      ("aq", jsonOfList (fun (q : Nat × String × Nat) =>
+          let c := cAt q.1; let a := aAt q.2.2
+          Json.arr #[jB (GenLang.lgassoc_contains_fieldname g c q.2.1),
+                     jExc jB (GenLang.lgassoc_contains_asset g c a),
+                     jExc jS (GenLang.lgassoc_get_opposite_fieldname g c q.2.1),
+                     jExc (jOptRef g.assets) (GenLang.lgassoc_get_opposite_asset g c a)]) aq),
+      ("common", jsonOfList (fun (q : Nat × Nat) =>
+          jExc (jsonOfList Drv.jOptS) (GenLangType.lgasset_get_all_common_superassets s (aAt q.1) (some (aAt q.2)))) common)])
+
+end GenXG
+/-! #### the class factory of `Py/GenClasses` (`gen_classes`): `_create_classes`, `get_association_by_signature` -/
+namespace GenXC
+open MalVerif.Py MalVerif.Py.Classes
+open MalVerif.Py.Visitor (V)
+
+def errName : CErr → String
+  | .lookupError => "LookupError"
+  | .py .typeError => "TypeError" | .py .keyError => "KeyError" | .py .indexError => "IndexError"
+  | .py .attributeError => "AttributeError" | .py .valueError => "ValueError" | .py .unboundLocal => "UnboundLocalError"
+  | .py .recursion => "RecursionError" | .py .nonTermination => "<nonTermination>" | .py .unmodelled => "<unmodelled>"
+  | .py .compileError => "<compileError>"
+
+/-- a Python value as ORDERED JSON (`Lean.Json` objects do not keep the insertion order): `None` / `bool` / `int` / `str` as
+themselves, a float as `{"f": repr}`, a list as `{"l": [...]}`, a tuple as `{"t": [...]}`, a dictionary as
+`{"d": [[key, value], ...]}` in insertion order.  `harness/props/c06.py: ordered` renders the real objects the same way. -/
+partial def vToOrd : V → Json
+  | .none => Json.null
+  | .bool b => jB b
+  | .int i => jI i
+  | .num t => jO [("f", jS t)]
+  | .str s => jS s
+  | .list l => jO [("l", jsonOfList vToOrd l)]
+  | .tuple l => jO [("t", jsonOfList vToOrd l)]
+  | .dict d => jO [("d", jsonOfList (fun (e : String × V) => Json.arr #[jS e.1, vToOrd e.2]) d)]
+  | .unbound => jO [("x", jS "unbound")]
+  | .ctx .. => jO [("x", jS "ctx")]
+  | .token .. => jO [("x", jS "token")]
+
+/-- the inverse: the values the harness sends (TTC dictionaries, maxima) -/
+partial def vOfOrd (j : Json) : R V :=
+  match j with
+  | .null => pure .none
+  | .bool b => pure (.bool b)
+  | .str s => pure (.str s)
+  | .num _ => do pure (.int (← jint j))
+  | .arr _ => throw "bad ordered value"
+  | .obj _ =>
+    match j.getObjVal? "f", j.getObjVal? "l", j.getObjVal? "t", j.getObjVal? "d" with
+    | .ok f, _, _, _ => do pure (.num (← jstr f))
+    | _, .ok l, _, _ => do pure (.list (← jlist vOfOrd l))
+    | _, _, .ok t, _ => do pure (.tuple (← jlist vOfOrd t))
+    | _, _, _, .ok d => do
+      let kvs ← jlist (fun e => do
+        match (← jarr e) with
+        | [k, v] => pure ((← jstr k), (← vOfOrd v))
+        | _ => throw "bad item") d
+      pure (.dict kvs)
+    | _, _, _, _ => throw "bad ordered value"
+
+/-- what `json.loads` makes of the canonical TTC text of the language payload (keys sorted, as `jtxt` writes them) -/
+partial def vOfJson : Json → V
+  | .null => .none
+  | .bool b => .bool b
+  | .str s => .str s
+  | .num n => if n.exponent == 0 then .int n.mantissa else .num (toString n)
+  | .arr a => .list (a.toList.map vOfJson)
+  | .obj o => .dict (o.toList.map (fun e => (e.1, vOfJson e.2)))
+
+/-- the language graph of a language as the ties build it (`lgOfLang` of `Py/AbsClasses.lean`: asset object `i` =
+declaration `i`, `attack_steps` = the inherited fold), with two things taken from the language instead of their
+abstractions: the TTC of a step is the dictionary of the specification (`lgOfLang`: `{'name': n}` / `None`), and the
+association objects are the nodes `_generate_graph` creates (`LG.assocNodes`: per asset, ancestors' declarations first,
+duplicates of (name, left, right) skipped) instead of the declarations in declaration order -/
+def lgOfLangSpec (L : Lang) (nodes : List AssocDecl) : LG :=
+  let base := lgOfLang { L with assocs := nodes }
+  -- the asset objects are computed once (`lg.asset` is a function: the generated code reads it at every attribute access)
+  let objs : Array LGAsset := (L.assets.mapIdx (fun i a =>
+      { base.asset i with attack_steps := (L.foldSteps a.name).map (fun e =>
+          { name := e.1, type := e.2.type,
+            ttc := (match Json.parse e.2.ttc with | .ok t => vOfJson t | .error _ => V.unbound) }) })).toArray
+  { base with asset := fun i => objs.getD i {} }
+
+/-- the language graph as the harness read it off the real `LanguageGraph` object: `assets` (name, indices of the super
+assets, `attack_steps` with name / type / ttc) and `associations` (name; per field: index of the asset, field name, maximum) -/
+def parseLG (j : Json) : R LG := do
+  let step (e : Json) : R LGStep := do
+    match (← jarr e) with
+    | [n, t, c] => pure { name := ← jstr n, type := ← jstr t, ttc := ← vOfOrd c }
+    | _ => throw "bad step"
+  let fld (e : Json) : R LGField := do
+    match (← jarr e) with
+    | [a, f, m] => pure { asset := ← jnat a, fieldname := ← jstr f, maximum := ← vOfOrd m }
+    | _ => throw "bad field"
+  let assets ← jfield (jlist (fun a => do
+    pure ({ name := ← jfield jstr a "name", super_assets := ← jfield (jlist jnat) a "supers",
+            attack_steps := ← jfield (jlist step) a "steps" } : LGAsset))) j "assets"
+  let assocs ← jfield (jlist (fun a => do
+    pure ({ name := ← jfield jstr a "name", left_field := ← jfield fld a "left", right_field := ← jfield fld a "right" } : LGAssoc))) j "assocs"
+  let arr := assets.toArray
+  pure { asset := fun i => arr.getD i {}, assets := List.range arr.size, associations := assocs }
+
+/-- `python_jsonschema_objects` is a parameter of the translation; here: the library accepts every schema (what it does
+with the schema of a language is the assumption of C06 exercised on the real classes) -/
+def pjsAccepts : Pjs := { ObjectBuilder := fun s => pure s, build_classes := fun _ _ => pure .none }
+
+/-- `LanguageClassesFactory(lang_graph)` (`__init__`: `self.json_schema = {}; self._create_classes()`) by the GENERATED
+`factory_create_classes`; then the GENERATED `get_association_by_signature` for every signature of `sigs`, each with the
+class `Py/AbsClasses.lean` reads under the returned name; `inv` = the asset classes with their defenses as
+`schemaDefenses` reads them -/
+def runFactory (lg : LG) (sigs : List (String × String × String)) : Json :=
+  match Gen.factory_create_classes pjsAccepts lg {} with
+  | .error e => jO [("error", jS (errName e))]
+  | .ok self =>
+    let schema := self.json_schema
+    let on (o : Option Nat) : Json := match o with | some n => jN n | none => Json.null
+    jO [("schema", vToOrd schema),
+        ("sigs", jsonOfList (fun (q : String × String × String) =>
+          match Gen.factory_get_association_by_signature lg self q.1 q.2.1 q.2.2 with
+          | .error e => jO [("error", jS (errName e))]
+          | .ok cls => jO [("cls", jS cls),
+              ("class", match schemaClassAt schema q.1 cls with
+                | some c => Json.arr #[jS c.cls, jS c.lf, jS c.ltype, on c.lmax, jS c.rf, jS c.rtype, on c.rmax]
+                | none => Json.null)]) sigs),
+        ("assets", jsonOfList (fun n => Json.arr #[jS n,
+            jsonOfList (fun (d : String × String) => Json.arr #[jS d.1, jS d.2]) ((schemaDefenses schema n).getD [])])
+          (schemaAssetNames schema))]
+
+def opGenClasses (j : Json) : R Json := do
+  let sigs := (← jfieldOpt (jlist (fun e => do
+    match (← jarr e) with
+    | [n, l, r] => pure ((← jstr n), (← jstr l), (← jstr r))
+    | _ => throw "bad signature")) j "sigs").getD []
+  let mut out : List (String × Json) := []
+  match j.getObjVal? "lang" with
+  | .ok lj =>
+    let L ← Drv.parseLang lj
+    match LG.assocNodes L with
+    | .error e => out := out ++ [("fromLang", jO [("langError", jS (Drv.lgErrName e))])]
+    | .ok nodes => out := out ++ [("fromLang", runFactory (lgOfLangSpec L nodes) sigs)]
+  | .error _ => pure ()
+  match j.getObjVal? "lg" with
+  | .ok gj => out := out ++ [("fromLG", runFactory (← parseLG gj) sigs)]
+  | .error _ => pure ()
+  pure (jO out)
+
+end GenXC
+
 def dispatch (j : Json) : R Json := do
   let op ← jfield jstr j "op"
   match op with
@@ -1097,6 +1988,16 @@ def dispatch (j : Json) : R Json := do
   | "gen_apriori" => GenX.opGenApriori j
   | "gen_model_hist" => GenXM.opGenModelHist j
   | "gen_resolve" => GenXL.opGenResolve j
+  | "gen_generate" => GenXW.opGenGenerate j
+  | "gen_legacy" => GenXLeg.opGenLegacy j
+  | "gen_neo4j_model" => GenXNeo.opGenNeo4jModel j
+  | "gen_neo4j_graph" => GenXNeo.opGenNeo4jGraph j
+  | "gen_ag_todict" => GenXS.opGenAgTodict j
+  | "gen_ag_fromdict" => GenXS.opGenAgFromdict j
+  | "gen_ser_model" => GenXS.M.opGenSerModel j
+  | "gen_load_doc" => GenXS.M.opGenLoadDoc j
+  | "gen_langgraph" => GenXG.opGenLangGraph j
+  | "gen_classes" => GenXC.opGenClasses j
   | _ => throw "bad-op"
 
 def handle (line : String) : String :=
